@@ -22,9 +22,9 @@ TIERS = {
               "RIGHTREC": (8, 20, 7, 16, 3, 6, 4, 6, 3), "NUM": (7, 18, 6, 14, 3, 6, 3, 4, 2), "MULTICHAR": (3, 8, 3, 8, 2, 3, 3, 4, 2)},
         cap=20, task_timeout=300),
     "thorough": dict(
-        plan={"ASSGN2": (9, 34, 8, 22, 4, 9, 36, 60, 7), "XMLISH": (8, 34, 7, 24, 3, 9, 36, 60, 7), "CSVISH": (8, 24, 7, 18, 3, 7, 36, 60, 7),
-              "NULLABLE": (10, 20, 9, 17, 3, 6, 14, 30, 6), "LEFTREC": (8, 24, 7, 18, 3, 6, 24, 44, 6), "AMBIG": (7, 17, 6, 15, 3, 5, 16, 40, 5),
-              "RIGHTREC": (9, 24, 8, 18, 3, 6, 16, 40, 5), "NUM": (8, 20, 7, 16, 3, 6, 16, 40, 5), "LENGTHS": (8, 20, 7, 16, 3, 6, 16, 40, 5),
+        plan={"ASSGN2": (9, 34, 8, 22, 4, 9, 26, 40, 6), "XMLISH": (8, 34, 7, 24, 3, 9, 26, 40, 6), "CSVISH": (8, 24, 7, 18, 3, 7, 26, 40, 6),
+              "NULLABLE": (10, 20, 9, 17, 3, 6, 12, 24, 6), "LEFTREC": (8, 24, 7, 18, 3, 6, 16, 30, 6), "AMBIG": (7, 17, 6, 15, 3, 5, 12, 30, 5),
+              "RIGHTREC": (9, 24, 8, 18, 3, 6, 12, 30, 5), "NUM": (8, 20, 7, 16, 3, 6, 12, 30, 5), "LENGTHS": (8, 20, 7, 16, 3, 6, 12, 30, 5),
               "TWOSTART": (10, 20, 9, 17, 3, 5, 8, 12, 4), "MULTICHAR": (3, 8, 3, 8, 2, 3, 5, 8, 3)},
         cap=60, task_timeout=900),
 }
